@@ -1,5 +1,9 @@
-//! Verification model of hashlink 0.8.4 LinkedHashSet (subset used by pie_graph), heap-free.
-//! NOTE: like the real crate, `insert` of an existing value moves it to the BACK and returns false.
+//! Verification model of hashlink 0.8.4 `LinkedHashSet` (subset used by pie_graph), heap-free, insertion-ordered.
+//! NOTE: like the real crate, `insert` of a value that is already present moves it to the BACK and returns false
+//! (hashlink 0.8.4 linked_hash_set.rs: `insert` = `self.map.insert(value, ()).is_none()`, and LinkedHashMap::insert on an
+//! occupied entry re-attaches the node at the back).
+//!
+//! CBMC note: all array accesses use concrete indices under symbolic guards (no symbolic-offset pointers).
 use std::borrow::Borrow;
 use std::marker::PhantomData;
 pub const CAP: usize = 6;
@@ -13,27 +17,38 @@ impl<T, S> LinkedHashSet<T, S> {
   pub fn new() -> Self { Self::default() }
   pub fn len(&self) -> usize { self.len }
   pub fn is_empty(&self) -> bool { self.len == 0 }
-  pub fn iter(&self) -> Iter<'_, T> { Iter { v: &self.v, i: 0, len: self.len } }
-  pub fn drain(&mut self) -> Drain<'_, T> { let len = self.len; self.len = 0; Drain { v: &mut self.v, i: 0, len } }
-  fn remove_at(&mut self, i: usize) -> T {
-    let x = self.v[i].take().unwrap();
-    let mut j = i;
-    while j + 1 < self.len { self.v[j] = self.v[j + 1].take(); j += 1; }
+  pub fn iter(&self) -> Iter<'_, T> { Iter { v: &self.v, i: 0 } }
+  pub fn drain(&mut self) -> Drain<'_, T> { self.len = 0; Drain { v: &mut self.v, i: 0 } }
+  /// Removes the element at position `i` (which must be < len), shifting the tail down; returns it.
+  fn remove_at(&mut self, i: usize) -> Option<T> {
+    let mut x = None;
+    let mut k = 0;
+    while k < CAP {
+      if k == i { x = self.v[k].take(); }
+      if k >= i && k + 1 < CAP { self.v[k] = self.v[k + 1].take(); }
+      k += 1;
+    }
     self.len -= 1;
     x
   }
-  fn push(&mut self, x: T) { assert!(self.len < CAP, "KMODEL-CAPACITY: LinkedHashSet"); self.v[self.len] = Some(x); self.len += 1; }
+  fn push(&mut self, x: T) {
+    assert!(self.len < CAP, "KMODEL-CAPACITY: LinkedHashSet");
+    let mut x = Some(x);
+    let mut k = 0;
+    while k < CAP { if k == self.len { self.v[k] = x.take(); } k += 1; }
+    self.len += 1;
+  }
 }
 impl<T: Eq, S> LinkedHashSet<T, S> {
   fn pos<Q: ?Sized + Eq>(&self, q: &Q) -> Option<usize> where T: Borrow<Q> {
-    let mut i = 0;
-    while i < self.len { if let Some(x) = &self.v[i] { if x.borrow() == q { return Some(i); } } i += 1; }
+    let mut k = 0;
+    while k < CAP { if let Some(x) = &self.v[k] { if x.borrow() == q { return Some(k); } } k += 1; }
     None
   }
   pub fn contains<Q: ?Sized + Eq>(&self, q: &Q) -> bool where T: Borrow<Q> { self.pos(q).is_some() }
   pub fn insert(&mut self, value: T) -> bool {
     match self.pos(&value) {
-      Some(i) => { let x = self.remove_at(i); self.push(x); false }
+      Some(i) => { let x = self.remove_at(i).unwrap(); self.push(x); false }
       None => { self.push(value); true }
     }
   }
@@ -41,17 +56,20 @@ impl<T: Eq, S> LinkedHashSet<T, S> {
     match self.pos(q) { Some(i) => { self.remove_at(i); true } None => false }
   }
 }
-pub struct Iter<'a, T> { v: &'a [Option<T>; CAP], i: usize, len: usize }
+pub struct Iter<'a, T> { v: &'a [Option<T>; CAP], i: usize }
 impl<'a, T> Iterator for Iter<'a, T> {
   type Item = &'a T;
-  fn next(&mut self) -> Option<&'a T> { if self.i < self.len { let i = self.i; self.i += 1; self.v[i].as_ref() } else { None } }
+  fn next(&mut self) -> Option<&'a T> {
+    // entries are compact: the first None ends the iteration
+    if self.i < CAP { let i = self.i; self.i += 1; self.v[i].as_ref() } else { None }
+  }
 }
-pub struct Drain<'a, T> { v: &'a mut [Option<T>; CAP], i: usize, len: usize }
+pub struct Drain<'a, T> { v: &'a mut [Option<T>; CAP], i: usize }
 impl<'a, T> Iterator for Drain<'a, T> {
   type Item = T;
-  fn next(&mut self) -> Option<T> { if self.i < self.len { let i = self.i; self.i += 1; self.v[i].take() } else { None } }
+  fn next(&mut self) -> Option<T> { if self.i < CAP { let i = self.i; self.i += 1; self.v[i].take() } else { None } }
 }
-impl<'a, T> Drop for Drain<'a, T> { fn drop(&mut self) { while self.i < self.len { self.v[self.i] = None; self.i += 1; } } }
+impl<'a, T> Drop for Drain<'a, T> { fn drop(&mut self) { while self.i < CAP { self.v[self.i] = None; self.i += 1; } } }
 impl<'a, T, S> IntoIterator for &'a LinkedHashSet<T, S> {
   type Item = &'a T; type IntoIter = Iter<'a, T>;
   fn into_iter(self) -> Self::IntoIter { self.iter() }
